@@ -32,8 +32,8 @@ def gen(vh, d, name, n, seed, only=0):
 
 
 def describe(e, b):
-    out = "ok(setup,idempotent,additive,data,accept)=%s v1=%s added=%s index_added_on=%r accept=%s" % (
-        (b["setup"], b["idem"], b["add"], b["data"], b["accept"]), [(f["col"], f["type"], f["tags"], f["idx"]) for f in e["v1"]],
+    out = "ok(setup,idempotent,additive,data,accept,index-shape)=%s v1=%s added=%s index_added_on=%r accept=%s" % (
+        (b["setup"], b["idem"], b["add"], b["data"], b["accept"], b.get("shape", True)), [(f["col"], f["type"], f["tags"], f["idx"]) for f in e["v1"]],
         [(f["col"], f["type"], f["tags"], f["idx"]) for f in e["added"]], e["added_index_on"], e["accept"][:120])
     for st in e["steps"]:
         out += "\n    %s err=%s ddl=%s" % (st["step"], st["err"][:100], [(d_["kind"], d_["object"]) for d_ in st["ddl"]][:10])
